@@ -26,7 +26,8 @@ def parseKT (s : String) : Option KT :=
   | 'a' :: r => (String.ofList r).toNat?.map (⟨.a, ·⟩)
   | _ => none
 
-def KT.lt (kt : KT) : Key → Key → Bool := if kt.fam = .i then ltSigned else ltUnsigned
+/-- all keys of one dictionary have the width of the key type, where the fast forms equal ltSigned / ltUnsigned -/
+def KT.lt (kt : KT) : Key → Key → Bool := if kt.fam = .i then ltSignedFast else ltUnsignedFast
 
 def parseInt? (s : String) : Option Int :=
   match s.toList with
